@@ -11,8 +11,9 @@ CONSTANTS MaxIf, MaxAddr, Emit
 IfRec == [mac : BOOLEAN, addrs : UNION {[1..k -> Net] : k \in 0..MaxAddr}]
 Cfg == [ifs : UNION {[1..k -> IfRec] : k \in 1..MaxIf},
         routes : SUBSET ((1..MaxIf) \X {10, 20}),      \* default routes <<interface, metric>>
-        fIface : 0..MaxIf, fSrcIP : BOOLEAN, fSrcMAC : BOOLEAN, target : Target]
+        fIface : 0..MaxIf, fSrcIP : BOOLEAN, fSrcV6 : BOOLEAN, fSrcMAC : BOOLEAN, target : Target]      \* fSrcV6: the value of --srcip is an IPv6 address
 WellFormed(c) == /\ \A r \in c.routes : r[1] <= Len(c.ifs)
+                 /\ (c.fSrcV6 => c.fSrcIP)
                  /\ c.fIface <= Len(c.ifs)
                  /\ \A r1, r2 \in c.routes : r1[2] = r2[2] => r1 = r2          \* distinct metrics: the choice is defined
 \* first address of interface i on a network containing the target (0 if none)
@@ -29,6 +30,7 @@ Pick(c) ==        \* set of allowed <<interface, address index (0 = none)>> choi
 Outcomes(c) == {LET i == p[1] k == p[2] IN
    IF i = 0 THEN [err |-> "no interface"]
    ELSE IF ~c.fSrcIP /\ (k = 0 \/ c.ifs[i].addrs[k] = "V6") THEN [err |-> "no IPv4 source"]      \* as repaired (§6 row 11)
+   ELSE IF c.fSrcIP /\ c.fSrcV6 THEN [err |-> "no IPv4 source"]                                  \* an IPv6 --srcip is not a usable source
    ELSE [err |-> "none", iface |-> i, src |-> IF c.fSrcIP THEN <<0, 0>> ELSE <<i, k>>,
          mac |-> IF c.fSrcMAC THEN "flag" ELSE IF c.ifs[i].mac THEN "iface" ELSE "none",
          vpn |-> ~c.fSrcMAC /\ ~c.ifs[i].mac] : p \in Pick(c)}
